@@ -715,8 +715,11 @@ class FnTranslator:
                 raise Untranslatable("match arm types")
             rty = bty
             c = arm_cond(pat)
+            gpre = "true"
             if guard is not None:
                 gv, gty, gok = self.ex(guard, env2)
+                if gok != "true":
+                    gpre = "(if %s then %s else true)" % (c, gok)   # the guard is evaluated when the pattern matches
                 c = "(%s && %s)" % (c, gv)
             if val is None:
                 if c != "true":
@@ -724,7 +727,7 @@ class FnTranslator:
                 val, okv = bv, bok
             else:
                 val = "(if %s then %s else %s)" % (c, bv, val)
-                okv = "(if %s then %s else %s)" % (c, bok, okv)
+                okv = conj([gpre, "(if %s then %s else %s)" % (c, bok, okv)])
         return ("(let %s := %s in %s)" % (x, v, val), rty,
                 conj([ok, "(let %s := %s in %s)" % (x, v, okv)]))
 
